@@ -6,9 +6,9 @@
 (* check "result = F(registers, arguments)".  Unexplained lines are collected *)
 (* in `bad' (known findings are told from new violations by Classify).        *)
 EXTENDS MLNorm, TraceLib
-VARIABLES l, g, memo, regs, prov, kl, bad
+VARIABLES l, g, memo, regs, prov, kl, mle, bad
 
-vars == << l, g, memo, regs, prov, kl, bad >>
+vars == << l, g, memo, regs, prov, kl, mle, bad >>
 NoCfg == [N |-> 0]
 NoMemo == [none |-> TRUE]
 HasMemo == "cells" \in DOMAIN memo
@@ -203,6 +203,57 @@ SetDetPairOk(r) ==
         LET d == VT2D(g.N, (j - 1) \div nt, g.minTang + ((j - 1) % nt)) IN
         /\ ValAt(pos, j) = ValAt(dp, DetPairEntryIndex(g, d[1], d[2]))
         /\ ValAt(neg, j) = (IF r.seg = 0 THEN ValAt(pos, j) ELSE ValAt(dp, DetPairEntryIndex(g, d[2], d[1])))
+(* -------- the whole estimation: ML_estimate_component_based_normalisation -------- *)
+\* An MLE line describes one call (measured data, model, options); the MLEStep lines that follow give, for the
+\* state after every component step (each efficiency iteration, the geometric step, the block step of every outer
+\* iteration), what the function wrote (read back by the library's readers).
+\* exact instance: measured = 4^k * model, i.e. data generated exactly from the product model with efficiencies 2^k
+\* and geometric / block factors 1 - the parameters the function starts from; "the model parameters are a fixed
+\* point of the maximum-likelihood iterations": every written estimate is that parameter.
+CrystalHasData(M, n) == \E i \in FanLo(memo.fg, memo.raOff, (n - 1) \div memo.fg.N, (n - 1) % memo.fg.N)..FanHi(memo.fg, memo.raOff, (n - 1) \div memo.fg.N, (n - 1) % memo.fg.N) : M.m[i] # 0
+MLEOk(r) ==
+  /\ ~r.thr
+  /\ FanReg(r.data) /\ FanReg(r.model) /\ g # NoCfg /\ Len(memo.slots) > 0 /\ BlockLegal(g)
+  /\ r.niter >= 1 /\ r.neff >= 1
+  /\ (r.exact => \A i \in 1..NCells : ValAt(Reg(r.data), i) = Shift(ValAt(Reg(r.model), i), 2 * r.k))      \* hypothesis
+MLEExactOk(r) ==
+  LET M == Reg(mle.model)  out == V(r.m, r.ex) IN
+  CASE r.kind = "eff" ->
+         /\ SameShape(out, memo.fg.R * memo.fg.N)
+         /\ \A n \in 1..(memo.fg.R * memo.fg.N) : ValAt(out, n) = (IF CrystalHasData(M, n) THEN << 1, mle.k >> ELSE Zero)
+    [] r.kind = "geo" ->
+         /\ SameShape(out, Len(memo.slots))
+         /\ \A n \in 1..Len(memo.slots) :
+               (IsCell(memo.fg, memo.slots[n]) /\ \A i \in memo.cellsOf[n] : M.m[i] # 0) => ValAt(out, n) = << 1, 0 >>
+    [] r.kind = "block" ->
+         /\ SameShape(out, Len(memo.bcells))
+         /\ \A n \in 1..Len(memo.bcells) :
+               LET cs == { i \in 1..NCells : BlockOfCell(g, memo.cells[i]) \in { memo.bcells[n], SwapCell(memo.bcells[n]) } } IN
+               (cs # {} /\ \A i \in cs : M.m[i] # 0) => ValAt(out, n) = << 1, 0 >>
+    [] OTHER -> FALSE
+\* dyadic data: distance after every component step from the recorded KL of every entry.
+\*  - an efficiency iteration leaves the distance with every pair counted once no larger, as long as the model it
+\*    works with is symmetric in the two crystals (first outer iteration: factors 1; or no geometric / block step);
+\*  - the block step sets every stored block factor to (sum of the data) / (sum of the model) over the stored entries
+\*    it applies to: the exact maximiser for the likelihood whose terms are the STORED entries, so the distance over
+\*    the stored entries gets no larger.  (No such statement for the geometric step: not demanded.)
+\* Tolerance: fixed-point rounding of the recorded values + the 6 significant digits of the result files
+\* (relative 2^-14 of (sum of data + sum of model), r.tot) + single precision.
+MLETol(r) == KLTol(NCells, 16) + 4 * r.tot
+MLEApproxOk(r) ==
+  /\ Len(r.cells) = NCells /\ r.fx = 16 /\ r.tot >= 0 /\ r.tot < 100000 /\ \A i \in 1..NCells : r.cells[i] >= 0
+  /\ (mle.has /\ r.kind = "eff" /\ (r.it = 1 \/ (~mle.doGeo /\ ~mle.doBlock))) => OnceSum(r) <= mle.once + MLETol(r)
+  /\ (mle.has /\ r.kind = "block") => StoredSum(r) <= mle.stored + MLETol(r)
+\* the steps come in the order the function performs them
+MLEOrderOk(r) ==
+  /\ mle.on
+  /\ r.kind \in {"eff", "geo", "block"}
+  /\ << r.it, r.kind, r.j >> = mle.next
+MLENext(r) == IF r.kind = "eff" THEN (IF r.j < mle.neff THEN << r.it, "eff", r.j + 1 >> ELSE << r.it, "geo", 0 >>)
+              ELSE IF r.kind = "geo" THEN << r.it, "block", 0 >>
+              ELSE << r.it + 1, "eff", 1 >>
+MLEStepOk(r) == MLEOrderOk(r) /\ r.it <= mle.niter /\ (IF mle.exact THEN MLEExactOk(r) ELSE MLEApproxOk(r))
+
 \* a call that is announced must return (the line after the announcement is its record)
 BeginOk(r) == l < Len(TraceLog) /\ TraceLog[l + 1].e = r.what
 
@@ -227,6 +278,8 @@ Explains(r) ==
     [] r.e = "IterBlock" -> BlockLegal(g) /\ IterBlockOk(r)
     [] r.e = "KLStart" -> KLStartOk(r)
     [] r.e = "KLStep" -> KLStepOk(r)
+    [] r.e = "MLE" -> MLEOk(r)
+    [] r.e = "MLEStep" -> MLEStepOk(r)
     [] OTHER -> FALSE
 
 \* known finding C20-kl-inplane: KL(FanProjData, FanProjData) counts the detector pairs inside one
@@ -245,7 +298,7 @@ Classify(r) ==
   ELSE IF r.e = "Abort" /\ l > 1 /\ TraceLog[l - 1].e = "Begin" /\ TraceLog[l - 1].what = "ApplyBlock" /\ ~BlockLegal(g) THEN "C20-block-samepair"
   ELSE "new"
 
-Init == l = 1 /\ g = NoCfg /\ memo = NoMemo /\ regs = << >> /\ prov = << >> /\ kl = [has |-> FALSE] /\ bad = << >>
+Init == l = 1 /\ g = NoCfg /\ memo = NoMemo /\ regs = << >> /\ prov = << >> /\ kl = [has |-> FALSE] /\ mle = [on |-> FALSE] /\ bad = << >>
 Writes(r) == r.e \in {"MakeFan", "ApplyEff", "ApplyGeo", "ApplyBlock", "Load"}
 Next ==
   /\ l <= Len(TraceLog)
@@ -272,6 +325,14 @@ Next ==
         /\ kl' = IF isCfg \/ r.e = "KLStart" THEN [has |-> FALSE]
                  ELSE IF r.e = "KLStep" /\ HasMemo /\ Len(r.cells) = Len(memo.cells) THEN [has |-> TRUE, once |-> OnceSum(r), lib |-> r.lib]
                  ELSE kl
+        /\ mle' = IF isCfg THEN [on |-> FALSE]
+                  ELSE IF r.e = "MLE" THEN (IF HasMemo /\ ~r.thr THEN [on |-> TRUE, has |-> FALSE, exact |-> r.exact, k |-> r.k, model |-> r.model, doGeo |-> r.doGeo,
+                                                                       doBlock |-> r.doBlock, niter |-> r.niter, neff |-> r.neff, next |-> << 1, "eff", 1 >>]
+                                            ELSE [on |-> FALSE])
+                  ELSE IF r.e = "MLEStep" /\ mle.on /\ HasMemo /\ r.kind \in {"eff", "geo", "block"}
+                       THEN IF mle.exact \/ Len(r.cells) # NCells THEN [mle EXCEPT !.next = MLENext(r)]
+                            ELSE [once |-> OnceSum(r), stored |-> StoredSum(r)] @@ [mle EXCEPT !.next = MLENext(r), !.has = TRUE]
+                  ELSE mle
         /\ bad' = IF okr THEN bad
                   ELSE IF cls = "new" THEN (IF Len(SelectSeq(bad, LAMBDA z : z[2] = "new")) < 200 THEN Append(bad, << l, cls >>) ELSE bad)
                   ELSE (IF Len(SelectSeq(bad, LAMBDA z : z[2] = cls)) < 20 THEN Append(bad, << l, cls >>) ELSE bad)
